@@ -36,7 +36,7 @@ enum Def {
 #[derive(Clone, Debug)]
 struct Arg {
     safety: Annot,
-    legacy: u8, // 0 none, 1 tag, 2 marker
+    legacy: u8, // 0 none, 1 tag `safe`, 2 marker logsafe.Safe; not legacy-safe: 3 marker logsafe.Unsafe, 4 marker logsafe.DoNotLog, 5 marker com.example.Safe, 6 tag `unsafe`
     ty: Ty,
     body: bool,
 }
@@ -153,7 +153,7 @@ fn arg_spec(defs_safe: &[bool], a: &Arg) -> bool {
         Annot::Safe => true,
         Annot::Unsafe | Annot::DoNotLog => false,
         Annot::None => {
-            if a.legacy != 0 {
+            if a.legacy == 1 || a.legacy == 2 {
                 return true;
             }
             let (b, r) = ty_parts(&a.ty);
@@ -171,9 +171,10 @@ fn random_annot(rng: &mut Rng) -> Annot {
     }
 }
 
-fn random_member_ty(rng: &mut Rng, n: usize, self_idx: usize, alias: bool) -> Ty {
+fn random_member_ty(rng: &mut Rng, n: usize, self_idx: usize, alias: bool, is_alias: &[bool]) -> Ty {
     // references inside objects/unions are always behind an optional or a collection (legal recursion);
-    // aliases refer only to earlier types (acyclic aliases)
+    // aliases refer to any object / union / enum (declared before or after them, so an alias can sit on a cycle) or to
+    // an earlier alias (alias chains end)
     let leaf = |rng: &mut Rng| match rng.below(8) {
         0 => Ty::Prim("STRING"),
         1 => Ty::Prim("BEARERTOKEN"),
@@ -182,8 +183,9 @@ fn random_member_ty(rng: &mut Rng, n: usize, self_idx: usize, alias: bool) -> Ty
         _ => Ty::Prim("INTEGER"),
     };
     if alias {
-        if self_idx > 0 && rng.chance(2, 3) {
-            let r = Ty::Ref(rng.below(self_idx));
+        let targets: Vec<usize> = (0..n).filter(|&j| j != self_idx && (!is_alias[j] || j < self_idx)).collect();
+        if !targets.is_empty() && rng.chance(2, 3) {
+            let r = Ty::Ref(targets[rng.below(targets.len())]);
             return match rng.below(4) {
                 0 => r,
                 1 => Ty::Opt(Box::new(r)),
@@ -214,18 +216,20 @@ fn random_member_ty(rng: &mut Rng, n: usize, self_idx: usize, alias: bool) -> Ty
 
 fn random_defs(rng: &mut Rng) -> Vec<Def> {
     let n = 1 + rng.below(7);
+    let kinds: Vec<usize> = (0..n).map(|_| rng.below(10)).collect();
+    let is_alias: Vec<bool> = kinds.iter().map(|k| (1..=2).contains(k)).collect();
     (0..n)
-        .map(|i| match rng.below(10) {
+        .map(|i| match kinds[i] {
             0 => Def::Enum,
-            1..=2 => Def::Alias(random_annot(rng), random_member_ty(rng, n, i, true)),
-            3 => Def::Union((0..rng.below(3)).map(|_| (random_annot(rng), random_member_ty(rng, n, i, false))).collect()),
+            1..=2 => Def::Alias(random_annot(rng), random_member_ty(rng, n, i, true, &is_alias)),
+            3 => Def::Union((0..rng.below(3)).map(|_| (random_annot(rng), random_member_ty(rng, n, i, false, &is_alias))).collect()),
             _ => {
                 // bias toward graphs where safety is decided by the cycle structure
                 let k = rng.below(4);
                 Def::Object(
                     (0..k)
                         .map(|_| {
-                            let t = random_member_ty(rng, n, i, false);
+                            let t = random_member_ty(rng, n, i, false, &is_alias);
                             let a = match &t {
                                 Ty::Prim(_) | Ty::Ext | Ty::List(_) if rng.chance(2, 3) && !matches!(&t, Ty::List(b) if matches!(**b, Ty::Ref(_))) => Annot::Safe,
                                 _ => random_annot(rng),
@@ -259,7 +263,7 @@ fn random_args(rng: &mut Rng, n: usize) -> Vec<Arg> {
             _ => Ty::Prim("INTEGER"),
         };
         let body = matches!(ty, Ty::Ref(_));
-        args.push(Arg { safety: random_annot(rng), legacy: if rng.chance(1, 3) { 1 + rng.below(2) as u8 } else { 0 }, ty, body });
+        args.push(Arg { safety: random_annot(rng), legacy: if rng.chance(1, 2) { 1 + rng.below(6) as u8 } else { 0 }, ty, body });
     }
     args
 }
@@ -267,8 +271,19 @@ fn random_args(rng: &mut Rng, n: usize) -> Vec<Arg> {
 fn build_ir(defs: &[Def], type_order: &[usize], args: &[Arg], split: usize) -> Value {
     let types: Vec<Value> = type_order.iter().map(|&i| def_ir(i, &defs[i])).collect();
     let mk_ep = |j: usize, a: &Arg| {
-        let markers = if a.legacy == 2 { vec![safe_marker()] } else { vec![] };
-        let tags = if a.legacy == 1 { vec!["safe"] } else { vec![] };
+        let marker = |name: &str, pkg: &str| serde_json::json!({"type": "external", "external": {"externalReference": {"name": name, "package": pkg}, "fallback": prim("ANY")}});
+        let markers = match a.legacy {
+            2 => vec![safe_marker()],
+            3 => vec![marker("Unsafe", "com.palantir.logsafe")],
+            4 => vec![marker("DoNotLog", "com.palantir.logsafe")],
+            5 => vec![marker("Safe", "com.example.logging")],
+            _ => vec![],
+        };
+        let tags = match a.legacy {
+            1 => vec!["safe"],
+            6 => vec!["unsafe"],
+            _ => vec![],
+        };
         let param = if a.body { body_param() } else { query_param("q") };
         endpoint_def(&format!("ep{}", j), "POST", &format!("/e{}", j), vec![arg_def("arg", ty_ir(&a.ty), param, a.safety.ir(), markers, tags)], None, None)
     };
@@ -302,7 +317,7 @@ fn permutations(n: usize) -> Vec<Vec<usize>> {
 fn run_one(cs: &mut Cases, class: &str, defs: &[Def], type_order: &[usize], args: &[Arg], split: usize) {
     let irv = build_ir(defs, type_order, args, split);
     let defs_txt = defs.iter().map(def_txt).collect::<Vec<_>>().join(",");
-    let args_txt = if args.is_empty() { "-".to_string() } else { args.iter().map(|a| format!("{}{}{}", a.safety.ch(), (a.legacy != 0) as u8, ty_txt(&a.ty))).collect::<Vec<_>>().join(",") };
+    let args_txt = if args.is_empty() { "-".to_string() } else { args.iter().map(|a| format!("{}{}{}", a.safety.ch(), (a.legacy == 1 || a.legacy == 2) as u8, ty_txt(&a.ty))).collect::<Vec<_>>().join(",") };
     let op = format!("safe {} {}", defs_txt, args_txt);
     let note = format!("defs [{}] args [{}] type order {:?} split {}", defs_txt, args_txt, type_order, split);
     let real = generate(&irv, &GenCfg::default()).and_then(|tree| endpoints(&tree));
@@ -359,6 +374,53 @@ pub fn cases(seed: u64, tier: Tier) -> Cases {
         run_one(&mut cs, "two-cycle", &cyc, &[0, 1, 2], &args, 3);
         run_one(&mut cs, "two-cycle", &cyc, &[2, 1, 0], &args, 1);
     }
+    // rings of 2..4 types in which every node is an object or an alias of the next node; exactly one object carries
+    // one more member (an undeclared string, a SAFE string, or an enum reference) placed before or after its ring
+    // edge; every evaluation order of one argument per node
+    let ring_max = if tier == Tier::Quick { 3 } else { 4 };
+    for len in 2..=ring_max {
+        for mask in 0..(1u32 << len) {
+            // bit set = alias; at least one object, and no two adjacent aliases pointing forward forever
+            if mask == (1 << len) - 1 {
+                continue;
+            }
+            for carrier in 0..len {
+                if mask & (1 << carrier) != 0 {
+                    continue;
+                }
+                for extra in 0..3 {
+                    for before in [false, true] {
+                        let mut defs: Vec<Def> = (0..len)
+                            .map(|i| {
+                                let next = (i + 1) % len;
+                                if mask & (1 << i) != 0 {
+                                    Def::Alias(Annot::None, Ty::Ref(next))
+                                } else {
+                                    let edge = (Annot::None, Ty::Opt(Box::new(Ty::Ref(next))));
+                                    if i == carrier {
+                                        let m = match extra {
+                                            0 => (Annot::None, Ty::Prim("STRING")),
+                                            1 => (Annot::Safe, Ty::Prim("STRING")),
+                                            _ => (Annot::None, Ty::Ref(len)),
+                                        };
+                                        Def::Object(if before { vec![m, edge] } else { vec![edge, m] })
+                                    } else {
+                                        Def::Object(vec![edge])
+                                    }
+                                }
+                            })
+                            .collect();
+                        defs.push(Def::Enum);
+                        let nat: Vec<usize> = (0..defs.len()).collect();
+                        for p in permutations(len) {
+                            let pa: Vec<Arg> = p.iter().map(|&i| a(i)).collect();
+                            run_one(&mut cs, "alias-ring", &defs, &nat, &pa, pa.len());
+                        }
+                    }
+                }
+            }
+        }
+    }
     let n = if tier == Tier::Quick { 120 } else { 2500 };
     for _ in 0..n {
         let defs = random_defs(&mut rng);
@@ -386,4 +448,4 @@ pub fn cases(seed: u64, tier: Tier) -> Cases {
     cs
 }
 
-pub const RULE: &str = "seeded IR type graphs of 1..7 types (objects, unions, aliases, enums; references behind optional/list/set/map so cycles of any shape occur; fields and aliases annotated none/SAFE/UNSAFE/DO_NOT_LOG; primitives incl. bearertoken and any, external types), one endpoint per type with a body argument of that type (plain, list, optional, map) plus arguments with explicit safety, the legacy tag and the legacy marker; the real generator is run for every permutation of the endpoints (<= 4 arguments) and for seeded permutations of endpoints, type declarations and the split into two services; the `safe` token of every emitted #[body/query(...)] attribute is read back with syn. Compared with the model fed the same definitions in the same evaluation order and with the declarative rule (greatest fixpoint) computed independently. Non-trivial = the graph has at least one undeclared reference; distinct = distinct (definitions, argument order) lines.";
+pub const RULE: &str = "seeded IR type graphs of 1..7 types (objects, unions, aliases (of any object/union/enum, also later ones, so aliases sit on cycles), enums; references behind optional/list/set/map so cycles of any shape occur; a directed family of rings of 2..3 (quick) / 4 (thorough) objects and aliases with one extra member, every evaluation order; fields and aliases annotated none/SAFE/UNSAFE/DO_NOT_LOG; primitives incl. bearertoken and any, external types), one endpoint per type with a body argument of that type (plain, list, optional, map) plus arguments with explicit safety, the legacy tag `safe`, the legacy marker com.palantir.logsafe.Safe, and look-alikes that are not legacy-safe (markers logsafe.Unsafe, logsafe.DoNotLog, a `Safe` of another package, the tag `unsafe`); the real generator is run for every permutation of the endpoints (<= 4 arguments) and for seeded permutations of endpoints, type declarations and the split into two services; the `safe` token of every emitted #[body/query(...)] attribute is read back with syn. Compared with the model fed the same definitions in the same evaluation order and with the declarative rule (greatest fixpoint) computed independently. Non-trivial = the graph has at least one undeclared reference; distinct = distinct (definitions, argument order) lines.";
